@@ -40,6 +40,39 @@ class Inject(Exception):
     pass
 
 
+class InjectRuntime(RuntimeError):
+    pass
+
+
+class InjectNotImplemented(NotImplementedError):
+    pass
+
+
+class InjectRecursion(RecursionError):
+    pass
+
+
+class InjectKey(KeyError):
+    pass
+
+
+class InjectType(TypeError):
+    pass
+
+
+class InjectAttribute(AttributeError):
+    pass
+
+
+# the exception TYPE of an injected fault matters: glue code has `except RuntimeError:  # no frames`,
+# `except TypeError`, `except AttributeError` idioms that must not eat a hook's failure
+FAULT_TYPES = {"Exception": Inject, "RuntimeError": InjectRuntime, "NotImplementedError": InjectNotImplemented,
+               "RecursionError": InjectRecursion, "KeyError": InjectKey, "TypeError": InjectType,
+               "AttributeError": InjectAttribute}
+BASE_TYPES = ["Exception", "RuntimeError"]
+SIG_RT_NOFRAMES = "C05_runtimeerror_in_glue_extract_outermost_taken_for_no_frames"
+
+
 class _Wrapped:
     def __init__(self, probe, name, orig):
         self.__dict__.update(_p=probe, _n=name, _o=orig)
@@ -60,7 +93,8 @@ class Rec:
 
 class Probe:
     def __init__(self, plan=()):
-        self.plan = {tuple(p) for p in plan}
+        # plan entries: (hook, k) or (hook, k, exception type name)
+        self.plan = {(p[0], p[1]): (p[2] if len(p) > 2 else "Exception") for p in plan}
         self.count = {h: 0 for h in HOOKS}
         self.fired, self.active, self.recs = [], [], []
         self._pending = False
@@ -69,8 +103,9 @@ class Probe:
         k = self.count[name]
         self.count[name] = k + 1
         if (name, k) in self.plan:
-            exc = Inject(name, k)
-            self.fired.append(dict(exc=exc, hook=name, k=k, levels=[(r.index, r.n) for r in self.active],
+            tname = self.plan[(name, k)]
+            exc = FAULT_TYPES[tname](name, k)
+            self.fired.append(dict(exc=exc, hook=name, k=k, type=tname, levels=[(r.index, r.n) for r in self.active],
                                    started=len(self.recs), done=[r.index for r in self.recs if r.done]))
             raise exc
 
@@ -179,6 +214,77 @@ def frame_sig(fr):
             tuple((type(c.obj).__name__, c.is_async, c.is_exiting, c.varname, c.start_line) for c in fr.contexts))
 
 
+def leaf_errors(st):
+    out = []
+
+    def rec(e):
+        if isinstance(e, BaseExceptionGroup):  # noqa: F821
+            for x in e.exceptions:
+                rec(x)
+        elif e is not None:
+            out.append(e)
+    rec(st.error)
+    return out
+
+
+def render_checks(st):
+    """the result must be renderable by EVERY public renderer: each returns a list of str (str for
+    __str__) that can be joined, and every renderer that prints the error shows each recorded error
+    (its type name and its message) -> list of messages"""
+    import itertools
+    msgs = []
+    errs = leaf_errors(st)
+
+    def want_error_text(name, text):
+        for e in errs:
+            tn = type(e).__name__
+            if tn not in text:
+                msgs.append("%s: the text of the recorded %s is missing from the output" % (name, tn))
+                return
+            arg = e.args[0] if e.args and isinstance(e.args[0], str) else None
+            if arg and arg not in text:
+                msgs.append("%s: the message %r of the recorded %s is missing from the output" % (name, arg, tn))
+                return
+
+    def lines_of(name, fn, shows_error):
+        try:
+            val = fn()
+        except BaseException as ex:  # noqa: BLE001
+            msgs.append("%s raised %r" % (name, ex))
+            return
+        if isinstance(val, str):
+            text = val
+        else:
+            try:
+                items = list(val)
+            except BaseException as ex:  # noqa: BLE001
+                msgs.append("%s: result is not iterable: %r" % (name, ex))
+                return
+            bad = [type(x).__name__ for x in items if not isinstance(x, str)]
+            if bad:
+                msgs.append("%s returned a list with non-str items (%s): ''.join() fails" % (name, ", ".join(sorted(set(bad)))))
+                return
+            text = "".join(items)
+        if shows_error:
+            want_error_text(name, text)
+
+    lines_of("str()", lambda: str(st), True)
+    for asc, ctx, hid in itertools.product((False, True), repeat=3):
+        lines_of("format(ascii_only=%s, show_contexts=%s, show_hidden_frames=%s)" % (asc, ctx, hid),
+                 lambda: st.format(ascii_only=asc, show_contexts=ctx, show_hidden_frames=hid), True)
+    for ctx in (False, True):
+        lines_of("format_flat(show_contexts=%s)" % ctx, lambda: st.format_flat(show_contexts=ctx), True)
+    for ctx, hid, loc in itertools.product((False, True), repeat=3):
+        def summ():
+            ss = st.as_stdlib_summary(show_contexts=ctx, show_hidden_frames=hid, capture_locals=loc)
+            import traceback
+            if not isinstance(ss, traceback.StackSummary):
+                raise TypeError("as_stdlib_summary returned %r" % (type(ss),))
+            return ss.format()
+        lines_of("as_stdlib_summary(show_contexts=%s, show_hidden_frames=%s, capture_locals=%s).format()" % (ctx, hid, loc), summ, False)
+    return msgs
+
+
 def check(clean, faulty, label):
     """-> (violations [str], notes [str])"""
     out, notes = [], []
@@ -188,16 +294,7 @@ def check(clean, faulty, label):
     import stackscope
     if not isinstance(st, stackscope.Stack):
         return ["O1 extract() returned %r" % (type(st),)], notes
-    for name, fn in (("str", str), ("format", lambda s: s.format()),
-                     ("format(ascii,hidden)", lambda s: s.format(ascii_only=True, show_hidden_frames=True)),
-                     ("format_flat", lambda s: s.format_flat()),
-                     ("format_flat(ctx)", lambda s: s.format_flat(show_contexts=True)),
-                     ("as_stdlib_summary", lambda s: s.as_stdlib_summary()),
-                     ("as_stdlib_summary(ctx).format", lambda s: s.as_stdlib_summary(show_contexts=True, show_hidden_frames=True).format())):
-        try:
-            fn(st)
-        except BaseException as ex:  # noqa: BLE001
-            out.append("O4 %s() failed on the result: %r" % (name, ex))
+    out.extend("O4 " + m for m in render_checks(st))
     reach = walk_stacks(st)
     reach_ids = {id(s) for s in reach}
     for s in reach:
@@ -227,9 +324,16 @@ def check(clean, faulty, label):
             else:
                 # NOT F23: the nested call produced no frame, so it must re-raise the hook's exception, which then
                 # lands in the error list of the Stack being built around it
-                notes.append("outermost:LOST-before-frame")
-                out.append("O2 %s fault #%d raised inside the glue's extract_outermost() call BEFORE any frame was produced "
-                           "is reported nowhere in the result (not in any Stack.error / ExceptionGroup)" % (f["hook"], f["k"]))
+                msg = ("O2 %s fault #%d (%s) raised inside the glue's extract_outermost() call BEFORE any frame was produced "
+                       "is reported nowhere in the result (not in any Stack.error / ExceptionGroup)" % (f["hook"], f["k"], f["type"]))
+                if isinstance(exc, RuntimeError):
+                    # extract_outermost re-raises the hook's own RuntimeError and the glue's `except RuntimeError:  # no frames`
+                    # takes it for the benign case
+                    notes.append("outermost:LOST-before-frame-RuntimeError")
+                    out.append((SIG_RT_NOFRAMES, msg))
+                else:
+                    notes.append("outermost:LOST-before-frame")
+                    out.append(msg)
             continue
         S = inner.stack
         if S is None:
@@ -238,8 +342,8 @@ def check(clean, faulty, label):
         errs = errors_of(S)
         if not any(x is exc for x in errs):
             where = "elsewhere in the tree" if id(exc) in reported else "nowhere"
-            out.append("O2 %s fault #%d is not in .error of the Stack being built (root %r); found %s"
-                       % (f["hook"], f["k"], type(inner.item).__name__, where))
+            out.append("O2 %s fault #%d (%s) is not in .error of the Stack being built (root %r); found %s"
+                       % (f["hook"], f["k"], f["type"], type(inner.item).__name__, where))
         if len(errs) == 1 and S.error is not errs[0]:
             out.append("O2 single error not stored alone")
         if id(S) not in reach_ids:
@@ -638,7 +742,7 @@ def run(tier, seed, only=None):
     except Exception:  # noqa: BLE001
         known_sigs = set()
     candidates = {}
-    known_count = [0]
+    known_count = {}     # known signature -> number of reproductions (all of them, not only the emitted ones)
 
     def add(label, plan, msgs):
         for m in msgs:
@@ -653,9 +757,10 @@ def run(tier, seed, only=None):
                     if len(c["examples"]) < 3:
                         c["examples"].append({"scenario": label, "faults": [list(x) for x in plan], "what": m})
                     continue
-            # known-finding reproductions must never crowd out a real violation: separate caps
-            n_same = sum(1 for v in viol if (v.get("sig") is None) == (sig is None))
-            known_count[0] += sig is not None
+            # known-finding reproductions must never crowd out a real violation nor each other: a cap per signature
+            n_same = sum(1 for v in viol if v.get("sig") == sig)
+            if sig is not None:
+                known_count[sig] = known_count.get(sig, 0) + 1
             if n_same < (40 if sig is None else 5):
                 viol.append({"what": "[real:%s] %s" % (label, m), "input": {"scenario": label, "faults": [list(x) for x in plan]},
                              "sig": sig})
@@ -682,7 +787,11 @@ def run(tier, seed, only=None):
             stats.update(invocations=counts, frames=len(clean["result"].frames),
                          stacks=len(walk_stacks(clean["result"])), extractions=len(clean["probe"].recs),
                          fault_free_errors=sum(len(errors_of(s)) for s in walk_stacks(clean["result"])))
-            singles = [(h, k) for h in HOOKS for k in range(counts[h])]
+            # exception types: two everywhere (a plain Exception and a RuntimeError); every type on the scenarios that go
+            # through the contextlib glue's exiting / unwrap_context_generator branches and on that hook everywhere
+            rich = (not quick) or label in ("exiting_manager", "exiting_async_manager", "custom_items")
+            singles = [(h, k, tn) for h in HOOKS for k in range(counts[h])
+                       for tn in (FAULT_TYPES if (rich or h == "unwrap_context_generator") else BASE_TYPES)]
             nrun = 0
             for pl in singles:
                 r = run_one(root, [pl])
@@ -695,10 +804,15 @@ def run(tier, seed, only=None):
                 add(label, [pl], msgs)
             # pairs: the second index may exceed the fault-free count on purpose (+2) because the
             # first fault changes the later invocation sequence
-            pairs = [(a1, b1) for i, a1 in enumerate(singles) for b1 in singles[i + 1:]]
             cap = 150 if quick else 2500
-            if len(pairs) > cap:
-                pairs = rng.sample(pairs, cap)
+            pairs = set()
+            tries = 0
+            while len(pairs) < cap and tries < 20 * cap and len(singles) > 1:
+                tries += 1
+                a1, b1 = rng.sample(singles, 2)
+                if (a1[0], a1[1]) != (b1[0], b1[1]):
+                    pairs.add((a1, b1) if a1 <= b1 else (b1, a1))
+            pairs = sorted(pairs)
             for pl in pairs:
                 r = run_one(root, list(pl))
                 evals += 1
@@ -727,7 +841,7 @@ def run(tier, seed, only=None):
         nroots = 0
         for x in non_stack_roots():
             for wc in (True, False):
-                for plan in ([], [("unwrap_stackitem", 0)]):
+                for plan in ([], [("unwrap_stackitem", 0)], [("unwrap_stackitem", 0, "RuntimeError")]):
                     r = run_one(x, plan, with_contexts=wc)
                     evals += 1
                     nroots += 1
@@ -745,15 +859,14 @@ def run(tier, seed, only=None):
                         want = [f["exc"] for f in r["probe"].fired]
                         if [id(e) for e in errors_of(st)] != [id(e) for e in want] or (len(want) == 1 and st.error is not want[0]):
                             msgs.append("error is %r, expected %r" % (st.error, want))
-                        try:
-                            str(st), st.format(), st.format_flat(), st.as_stdlib_summary()
-                        except BaseException as ex:  # noqa: BLE001
-                            msgs.append("O4 formatting failed: %r" % (ex,))
+                        msgs.extend("O4 " + m for m in render_checks(st))
                     add(lab, plan, msgs)
         info["non_stack_roots"] = nroots
     info["notes"] = notes_total
-    info["finding_candidates_not_in_known_findings"] = candidates
-    info["known_finding_reproductions"] = known_count[0]
+    if candidates:
+        # a signature the leg knows how to classify but that known_findings.json does not list (yet)
+        info["finding_candidates_not_in_known_findings"] = candidates
+    info["known_finding_reproductions"] = dict(known_count)
     info["hooks"] = HOOKS
-    known = [s_ for s_ in known_sigs if any(v.get("sig") == s_ for v in viol)]
+    known = sorted(known_count)      # every known signature that reproduced, independent of the emission caps
     return dict(evaluations=evals, violations=viol, info=info, known_reproduced=known)
